@@ -1042,6 +1042,63 @@ def collect() -> List[Tuple[str, str, str, str, int]]:
     return [r[:5] for r in collect_with_facts()]
 
 
+def order_uses() -> List[Tuple[str, str, List[Tuple[str, str]]]]:
+    """ORDER-VALUED results of a set iteration and everything that consumes them.
+
+    A function with a set-iteration site (e.g. `topological_sort`: the neighbour sets of the reward-sharing graph) returns a value whose
+    ORDER depends on the iteration order. The discharge of such a site is "the order is irrelevant FOR X" (every dependencies-first order
+    computes the same rewards) - which is only true if X is the only consumer. Listed here: every attribute assigned from a call of such
+    a function (`self._reward_calculation_order = topological_sort(graph)`), with ALL the functions that read it - directly, or through a
+    helper that reads it and returns / yields (then the helper's callers, transitively). [(attribute, producing function, [(file, function)])]"""
+    rows = collect_with_facts()
+    producers = sorted({r[1].split(".")[0] for r in rows if r[2] == "setIter" and "." in r[1] and r[1].split(".")[0][:1].islower()}
+                       | {r[1] for r in rows if r[2] == "setIter" and "." not in r[1]})
+    trees = [(str(f.relative_to(SRC)), ast.parse(f.read_text())) for f in sorted(SRC.rglob("*.py"))]
+
+    def functions(tree):
+        out = []
+
+        def rec(node, prefix):
+            for ch in ast.iter_child_nodes(node):
+                if isinstance(ch, (ast.FunctionDef, ast.AsyncFunctionDef, ast.ClassDef)):
+                    q = f"{prefix}.{ch.name}" if prefix else ch.name
+                    if not isinstance(ch, ast.ClassDef):
+                        out.append((q, ch))
+                    rec(ch, q)
+                else:
+                    rec(ch, prefix)
+        rec(tree, "")
+        return out
+    funcs = [(rel, q, fn) for rel, tree in trees for q, fn in functions(tree)]
+    attrs: List[Tuple[str, str]] = []
+    for rel, tree in trees:
+        for n in ast.walk(tree):
+            if isinstance(n, ast.Assign) and isinstance(n.value, ast.Call):
+                f = n.value.func
+                name = f.attr if isinstance(f, ast.Attribute) else (f.id if isinstance(f, ast.Name) else None)
+                if name in producers:
+                    for t in n.targets:
+                        if isinstance(t, ast.Attribute):
+                            attrs.append((t.attr, name))
+    out = []
+    for attr, prod in sorted(set(attrs)):
+        users = {(rel, q) for rel, q, fn in funcs
+                 if any(isinstance(m, ast.Attribute) and m.attr == attr and isinstance(m.ctx, ast.Load) for m in ast.walk(fn))}
+        # a reader that returns / yields hands the order on: its callers consume it too
+        frontier = set(users)
+        for _ in range(6):
+            helpers = {q.split(".")[-1] for rel, q in frontier for rel2, q2, fn in funcs if (rel2, q2) == (rel, q)
+                       and any(isinstance(m, (ast.Yield, ast.YieldFrom)) or (isinstance(m, ast.Return) and m.value is not None) for m in ast.walk(fn))}
+            new = {(rel, q) for rel, q, fn in funcs for m in ast.walk(fn) if isinstance(m, ast.Call)
+                   and (m.func.attr if isinstance(m.func, ast.Attribute) else (m.func.id if isinstance(m.func, ast.Name) else None)) in helpers} - users
+            if not new:
+                break
+            users |= new
+            frontier = new
+        out.append((attr, prod, sorted(users)))
+    return out
+
+
 def datetime_fields() -> List[Tuple[str, str, str, bool]]:
     """(file, class, field, fixed-width serialiser?) for every annotated class field whose annotation mentions `datetime`.
     Serialiser = a method decorated `@field_serializer(..., <field>, ...)` whose every `return` of a non-None value is
@@ -1139,6 +1196,10 @@ def emit() -> str:
          "def sites : List Site := [\n  " + ",\n  ".join(lean_site(r[:5]) for r in rows) + "]",
          "/-- one fact per site, same order -/",
          "def facts : List Fact := [\n  " + ",\n  ".join(r[5] for r in rows) + "]",
+         "/-- order-valued results of a set iteration: (attribute, producing function, every function that reads it - directly or through a\n"
+         "helper that returns / yields it) -/",
+         "def orderUses : List (String × String × List (String × String)) := [\n  " + ",\n  ".join(
+             f"({_lstr(a)}, {_lstr(p)}, [" + ", ".join(f"({_lstr(x)}, {_lstr(y)})" for x, y in us) + "])" for a, p, us in order_uses()) + "]",
          "/-- every class field whose annotation mentions `datetime`: (file, class, field, has a JSON serialiser returning\n"
          "`isoformat(timespec='microseconds')`, i.e. a text of constant width) -/",
          "def datetimeFields : List (String × String × String × Bool) := [\n  " + ",\n  ".join(
